@@ -32,6 +32,20 @@ def empty_universe():
     return _EMPTY
 
 
+def fresh_registry():
+    """Drop the class universes of the previous correspondence op.  XmlContext walks every live
+    dataclass when it builds its xsi index, so keeping thousands of generated universes alive makes every
+    later parser construction slower (quadratic over a thorough run).  `uni_of` re-creates a universe
+    from its description when a later stage (oracle search, replay) needs it again."""
+    import gc
+
+    for u in list(_UNIS.values()):
+        if u is not _EMPTY:
+            u.close()
+    _UNIS.clear()
+    gc.collect()
+
+
 def uni_or_empty(a):
     return uni_of(a) if a.get("desc") else empty_universe()
 
@@ -40,6 +54,7 @@ def uni_or_empty(a):
 # (a) writers
 # ============================================================================
 def gen_writers(rng, tier):
+    fresh_registry()
     for _ in range(n_cases(tier, 80, 900)):
         u, desc, ctx = new_universe(rng)
         for _ in range(5):
@@ -92,6 +107,7 @@ def classify_writers(a, o):
 
 
 def gen_indent(rng, tier):
+    fresh_registry()
     for u, ctx, desc, tree, kind in documents(rng, tier, n_cases(tier, 25, 400), 3):
         for sp in rng.sample(["  ", "\t", "", " ", "--", "\n", " \t"], 2):
             yield {"tree": tree, "space": sp, "_kind": kind}
@@ -146,6 +162,7 @@ def random_stores(rng, d, top_allowed=False):
 
 
 def gen_dtrees(rng, tier, n_uni, per_uni):
+    fresh_registry()
     for u, ctx, desc, tree, kind in documents(rng, tier, n_uni, per_uni, mutate=False):
         yield D.plain_dtree(tree)
         for _ in range(2):
@@ -369,7 +386,8 @@ def clean_tree(xml: str):
 
 
 def gen_handlers(rng, tier, for_corr=False):
-    for u, ctx, desc, tree, kind in documents(rng, tier, n_cases(tier, 60, 300), 3, mutate=True):
+    fresh_registry()
+    for u, ctx, desc, tree, kind in documents(rng, tier, n_cases(tier, 60, 450), 3, mutate=True):
         lay = rng.random()
         try:
             d = D.plain_dtree(tree) if lay < 0.3 else D.layout(rng, tree, allow_default=default_ok(desc, tree))
@@ -624,5 +642,5 @@ LEVEL_TEXT = "proof for the Python glue of the back-ends (indentation bookkeepin
 LEVEL_NOTE = (
     "native_nsmap_inscope holds at full strength for all documents of the model (the handler keeps the in-scope maps itself); "
     "indent_ws_only holds at full strength too (mixed content included) since the native writer writes no indentation right "
-    "after character data"
+    "after character data; indent_writers_agree ties the native text to the lxml tree up to layout for every indent"
 )
